@@ -135,4 +135,36 @@ def corner_frames():
                     out.append("F %d %d %d 9 %d 0 0 0 0 0 0 0 0 255" % (arch, plat, cc, attrs))
                     out.append("F %d %d %d 9 %d %d %d 0 0 40 32 24 0 255" % (arch, plat, cc, a2, full[0], full[1]))
                     out.append("F %d %d %d 9 %d %d %d 0 0 40 0 24 64 255" % (arch, plat, cc, a2, full[0], full[1]))
+    return out + boundary_frames()
+
+
+def boundary_frames():
+    """round 5: frames ON the case-split boundaries of the model / the proofs (both sides of every threshold):
+    finalize_error's size limit, a64_adjust's immediates (4095 | 4096, 16777215 | 16777216), x86 restore-sp arms (mov sp,bp | lea |
+    add | load of the DA slot | nothing), alignment arms (natural | lowered to natural | dynamic), ret | ret n, odd/even pair counts"""
+    out = []
+    LIM = 0x7FFF0000
+    for arch in (0, 1, 2):
+        cc = 0
+        for (ls, cs) in ((LIM, 0), (LIM - 4096, 4096), (LIM + 1, 0), (LIM - 4095, 4096), (LIM - 16, 16), (LIM - 15, 16), (0, LIM), (1, LIM),
+                         (0xFFFFFFFF, 0xFFFFFFFF), (0x80000000, 0x80000000)):
+            if arch == 0 and ls + cs <= LIM:
+                continue        # a 2 GiB frame does not fit below the scenario's 32-bit entry sp: only the refused side on x86-32
+            for attrs in (0, 1, 3):
+                out.append("F %d 0 %d 2 %d 8 0 0 0 %d 0 %d 0 255" % (arch, cc, attrs, ls, cs))
+    # AArch64 sub/add sp immediates: stack adjustment on both sides of 4095/4096 and 16777215/16777216, with and without saves / FP
+    for ls in (4064, 4079, 4080, 4081, 4095, 4096, 4097, 4112, 8191, 8192, 16777184, 16777199, 16777200, 16777201, 16777215, 16777216, 16777217, 16777232):
+        for attrs in (0, 1, 2, 3):
+            for d0, d1 in ((0, 0), (1 << 19, 0), (0x180000, 0x100), (0x380000, 0x300), (0x7FF80000, 0xFF00)):
+                out.append("F 2 0 0 2 %d %d %d 0 0 %d 0 0 0 255" % (attrs, d0, d1, ls))
+                out.append("F 2 0 0 2 %d %d %d 0 0 %d 16 32 16 9" % (attrs, d0, d1, max(ls - 32, 0)))
+    # x86 / x64: every restore-sp arm and every alignment arm, callee-pops conventions, 0..3 pushed registers
+    for arch in (0, 1):
+        for cc in (0, 1, 2):
+            for attrs in (0, 1, 2, 3):
+                for d0 in (0, 8, 0x48, 0xC8):
+                    for (ls, la) in ((0, 0), (8, 4), (8, 8), (16, 16), (40, 32), (40, 64)):
+                        for cs in (0, 32):
+                            out.append("F %d 0 %d 3 %d %d 0 0 0 %d %d %d 0 255" % (arch, cc, attrs, d0, ls, la, cs))
+                            out.append("F %d 1 %d 3 %d %d %d 0 0 %d %d %d 0 6" % (arch, cc, attrs | 8, d0, 0xC0 if arch else 0, ls, la, cs))
     return out
